@@ -1136,6 +1136,9 @@ class RealJob:
         "true": (["true"], None, None),
         "false": (["false"], None, None),
         "missing-binary": (["/nonexistent/c17-solver"], None, None),
+        "not-executable": (["{noexec}"], None, None),               # Popen raises PermissionError
+        # cancel() is called before submit(): the worker finds the request before Popen (the ShutdownError path)
+        "cancelled-before-start": (["sleep", "{t}"], None, None),
         "sleep-short": (["sleep", "0.05"], None, None),
         "echo": (["sh", "-c", "echo unsat"], 30.0, None),
         "sleep-long": (["sleep", "{t}"], None, (0, False, False)),
@@ -1148,14 +1151,32 @@ class RealJob:
         "wrapper-child-ignores": (["sh", "-c", "(trap '' TERM; exec sleep {t}) & wait"], None, (1, False, True)),
         "wrapper-child-ignores-timeout": (["sh", "-c", "(trap '' TERM; exec sleep {t}) & wait"], 3.0, (1, False, True)),
     }
-    SIMPLE = ("true", "false", "missing-binary", "sleep-short", "sleep-long", "timeout")
+    SIMPLE = ("true", "false", "missing-binary", "not-executable", "cancelled-before-start", "sleep-short", "sleep-long",
+              "timeout")
+    NOEXEC = None
+
+    @classmethod
+    def noexec_path(cls):
+        import os
+        import tempfile
+        if cls.NOEXEC is None or not os.path.exists(cls.NOEXEC):
+            fd, path = tempfile.mkstemp(prefix="c17_noexec_")
+            os.write(fd, b"#!/bin/sh\necho unsat\n")
+            os.close(fd)
+            os.chmod(path, 0o644)
+            cls.NOEXEC = path
+        return cls.NOEXEC
+
     ENDLESS = ("sleep-long", "ignore-term", "children", "wrapper-child-ignores")
 
     def __init__(self, P, kind, serial, escaped):
         self.kind = kind
         argv, self.timeout, self.tree = self.KINDS[kind]
         self.token = f"3{serial % 7}.{serial:05d}{__import__('os').getpid() % 1000:03d}"
-        self.f = P.PopenFuture([a.replace("{t}", self.token) for a in argv], timeout=self.timeout)
+        argv = [a.replace("{t}", self.token).replace("{noexec}", self.noexec_path() if "{noexec}" in a else "") for a in argv]
+        self.f = P.PopenFuture(argv, timeout=self.timeout)
+        self.callbacks = [0]
+        self.f.add_done_callback(lambda fut: self.callbacks.__setitem__(0, self.callbacks[0] + 1))
         self.count = [0]
         real_set, real_cancel = self.f.set_result, self.f.cancel
 
@@ -1167,20 +1188,37 @@ class RealJob:
             try:
                 return real_cancel()
             except BaseException as e:  # noqa: BLE001 - recorded (the pool of shutdown() would swallow it), re-raised
-                escaped.append(types.SimpleNamespace(exc_value=e))
+                escaped.append(types.SimpleNamespace(exc_value=e, via_cancel=True))
                 raise
 
         self.f.set_result, self.f.cancel = set_result, cancel
+        self.pre_cancelled = False
         self.worker = None
         self.t_submit = None
         self.t_ready = None
 
+    CREATED: list = []     # worker threads created by the code under test (recorded by the Thread subclass below)
+
     def submit(self, ex):
+        n_before = len(RealJob.CREATED)
+        try:
+            self._submit(ex)
+        finally:
+            made = RealJob.CREATED[n_before:]
+            if len(made) == 1:
+                self.worker = made[0]
+
+    def _submit(self, ex):
+        if self.kind == "cancelled-before-start" and hasattr(self.f, "_cancel_requested"):
+            self.f.cancel()
+            self.pre_cancelled = True
+        elif self.kind == "cancelled-before-start":
+            self.f.cmd = ["true"]      # code without a cancel request flag: an ordinary short job
         before = set(threading.enumerate())
         self.t_submit = time.time()
         ex.submit(self.f)
         new = [t for t in threading.enumerate() if t not in before]
-        self.worker = new[0] if len(new) == 1 else None
+        self.worker = new[0] if len(new) == 1 else None      # fallback; normally overwritten from RealJob.CREATED
 
     def ready(self) -> bool:
         """the process tree stands (decided from /proc): all expected descendants exec'ed, signal dispositions in place"""
@@ -1219,6 +1257,22 @@ def real_process_runs(ctx, n_runs, literals, forced=None):
     escaped = []
     old_hook = threading.excepthook
     threading.excepthook = lambda a: escaped.append(a)
+
+    # the only substitution in this section: `threading.Thread` as seen by halmos.processes is a subclass that remembers
+    # the thread objects it creates (a worker whose Popen fails ends within microseconds; its state must stay observable)
+    class RecordingThread(threading.Thread):
+        def __init__(self, *a, **k):
+            super().__init__(*a, **k)
+            RealJob.CREATED.append(self)
+
+    class ThreadingProxy:
+        Thread = RecordingThread
+
+        def __getattr__(self, name):
+            return getattr(threading, name)
+
+    old_threading = P.threading
+    P.threading = ThreadingProxy()
     try:
         _real_process_runs(ctx, n_runs, P, ctx.rng, escaped, forced)
         if not forced:
@@ -1226,6 +1280,8 @@ def real_process_runs(ctx, n_runs, literals, forced=None):
                 late_fork_probe(ctx, P, escaped, path)
     finally:
         threading.excepthook = old_hook
+        P.threading = old_threading
+        del RealJob.CREATED[:]
 
 
 LATE_FORK_WRAPPER = r"""
@@ -1287,10 +1343,10 @@ def late_fork_probe(ctx, P, escaped, path):
     ctx.count(f"real:late-fork:{path}")
     ctx.case(("real", "late-fork", path))
     try:
-        before = set(threading.enumerate())
+        n_before = len(RealJob.CREATED)
         t_submit = time.monotonic()
         ex.submit(f)
-        worker = [t for t in threading.enumerate() if t not in before]
+        worker = RealJob.CREATED[n_before:]
         worker = worker[0] if len(worker) == 1 else None
         t_end = time.time() + 60
         while not os.path.exists(flag) and time.time() < t_end and not f.done():
@@ -1299,7 +1355,10 @@ def late_fork_probe(ctx, P, escaped, path):
             ctx.count("real:slow:late-fork-setup-not-ready-in-time(no verdict)")
             return
         if path == "shutdown":
-            ex.shutdown(wait=False)
+            how, _info = bounded_shutdown(ex, False, [])
+            if how == "slow":
+                ctx.count("real:slow:shutdown-did-not-return-in-150s(no verdict)")
+                return
         else:
             # the job's own time limit: wait for the worker's cleanup (future done, or worker thread ended)
             t_end = time.time() + 120
@@ -1372,6 +1431,40 @@ def detach_stuck_workers(ctx, workers, grace=3.0):
                 pass
 
 
+def bounded_shutdown(ex, wait, jobs, patience=150.0):
+    """run `ex.shutdown(wait=...)` of the code under test in a helper thread that can be abandoned.
+    -> ("ok", None) | ("raised", exc) | ("hang", why) | ("slow", None).
+    "hang" is decided from state, not from time: shutdown(wait=True) is still blocked although the worker thread of
+    every job whose result is not delivered has ended — nothing can ever complete those futures."""
+    box = {}
+
+    def body():
+        try:
+            ex.shutdown(wait=wait)
+            box["ok"] = True
+        except BaseException as e:  # noqa: BLE001
+            box["exc"] = e
+
+    th = threading.Thread(target=body, daemon=True, name="c17-shutdown-helper")
+    th.start()
+    t_end = time.time() + patience
+    stuck_since = None
+    while True:
+        th.join(0.01)
+        if not th.is_alive():
+            break
+        pending = [j for j in jobs if not j.f.done()]
+        if wait and pending and all(j.worker is not None and not j.worker.is_alive() for j in pending):
+            stuck_since = stuck_since or time.time()
+            if time.time() - stuck_since > 1.0:
+                return "hang", [j.kind for j in pending]
+        else:
+            stuck_since = None
+        if time.time() > t_end:
+            return "slow", None
+    return ("raised", box["exc"]) if "exc" in box else ("ok", None)
+
+
 class _TokenOnly:
     def __init__(self, token):
         self.token = token
@@ -1408,6 +1501,9 @@ def _real_process_runs(ctx, n_runs, P, rng, escaped, forced=None):
         ("nowait", ["sleep-long", "sleep-long", "timeout"], True),
         ("wait", ["echo", "timeout", "children-timeout"], False),
         ("nowait", ["ignore-term", "children", "true"], False),
+        ("wait", ["missing-binary", "cancelled-before-start", "echo"], False),
+        ("none", ["not-executable", "cancelled-before-start", "sleep-short"], False),
+        ("nowait", ["cancelled-before-start", "not-executable", "sleep-long"], False),
     ]
     if forced:
         directed = forced
@@ -1416,15 +1512,16 @@ def _real_process_runs(ctx, n_runs, P, rng, escaped, forced=None):
         if run < len(directed):
             mode, chosen, overlap = directed[run]
         else:
-            mode = rng.choice(["nowait", "nowait", "wait"])
-            pool = [k for k in names if not (mode == "wait" and k in RealJob.ENDLESS)]
+            mode = rng.choice(["nowait", "nowait", "wait", "wait", "none"])
+            pool = [k for k in names if not (mode in ("wait", "none") and k in RealJob.ENDLESS)]
             chosen = [rng.choice(pool) for _ in range(rng.randint(1, 4))]
             # `overlap`: call shutdown while worker threads may not have reached Popen yet; only single-process commands
             # (a command that is still building its process tree when cancel() arrives is outside the property's
             # assumptions: cancel() lists the tree once)
             overlap = rng.random() < 0.25
             if overlap:
-                chosen = [k if k in RealJob.SIMPLE else ("sleep-short" if mode == "wait" else "sleep-long") for k in chosen]
+                chosen = [k if k in RealJob.SIMPLE and not (mode != "nowait" and k == "sleep-long")
+                          else ("sleep-short" if mode != "nowait" else "sleep-long") for k in chosen]
         # at most one job with a 3 s time limit per run (keeps a run short)
         seen_t = False
         for n, k in enumerate(chosen):
@@ -1463,12 +1560,29 @@ def _real_process_runs(ctx, n_runs, P, rng, escaped, forced=None):
                 ctx.violation("bookkeeping:unfinished-future-dropped",
                               f"real processes: accepted, unfinished futures {lost} are no longer in executor.futures", replay)
             raised = None
-            try:
-                ex.shutdown(wait=(mode == "wait"))
-            except BaseException as e:  # noqa: BLE001
-                raised = e
+            hung = False
+            if mode != "none":
+                how, info = bounded_shutdown(ex, mode == "wait", jobs)
+                if how == "raised":
+                    raised = info
+                elif how == "slow":
+                    ctx.count("real:slow:shutdown-did-not-return-in-150s(no verdict)")
+                    continue
+                elif how == "hang":
+                    hung = True
+                    ctx.violation("shutdown-wait:does-not-return",
+                                  f"real processes: shutdown(wait=True) stays blocked although the worker threads of the "
+                                  f"undelivered jobs {info} have ended (their futures can never complete)", replay)
             time.sleep(0.01)
-            fault = [a for a in escaped if not isinstance(a.exc_value, P.ShutdownError)]
+            via_cancel = [a for a in escaped if getattr(a, "via_cancel", False)]
+            cancel_ids = {id(a.exc_value) for a in via_cancel}
+            # an exception that ended a worker thread and did not come out of cancel(): the code under test itself failed
+            for a in escaped:
+                if not getattr(a, "via_cancel", False) and id(a.exc_value) not in cancel_ids \
+                        and not isinstance(a.exc_value, P.ShutdownError):
+                    ctx.violation(f"real:worker-thread-exception:{type(a.exc_value).__name__}",
+                                  f"real processes: exception {a.exc_value!r} ended a worker thread of jobs {chosen}", replay)
+            fault = [a for a in via_cancel if not isinstance(a.exc_value, P.ShutdownError)]
             if fault or (raised is not None and mode == "nowait"):
                 # outside the stated assumptions (cancel() raised something else than psutil.NoSuchProcess, typically
                 # psutil tripping over an unrelated process while scanning /proc): recorded, not judged
@@ -1478,13 +1592,20 @@ def _real_process_runs(ctx, n_runs, P, rng, escaped, forced=None):
                 continue
             if raised is not None:
                 ctx.count("real:shutdown-raised")
-            if raised is None and mode == "wait" and not all(j.f.done() for j in jobs):
+            if raised is None and not hung and mode == "wait" and not all(j.f.done() for j in jobs):
                 ctx.violation("shutdown-wait:returned-before-accepted-job-done",
                               "real processes: shutdown(wait=True) returned although an accepted job has not delivered its result",
                               replay)
 
             # ---- nothing of any job's process tree is alive once cancel()/shutdown has returned (decided by process state)
             judged = jobs if raised is None else []
+            if mode == "none":
+                # no shutdown: wait (by state) until every job has delivered or lost its worker thread
+                t_w = time.time() + 120
+                while time.time() < t_w and any(not j.f.done() and (j.worker is None or j.worker.is_alive())
+                                                for j in jobs if j.kind not in RealJob.ENDLESS):
+                    time.sleep(0.01)
+                judged = [j for j in jobs if j.f.done()]
             if mode == "wait":
                 # only jobs whose result is delivered have been cleaned up
                 judged = [j for j in judged if j.f.done()]
@@ -1533,6 +1654,14 @@ def _real_process_runs(ctx, n_runs, P, rng, escaped, forced=None):
                     res, exc = None, e
                 if j.count[0] != 1:
                     ctx.violation("real:result-once", f"{j.kind}: set_result executed {j.count[0]} times", replay)
+                if j.callbacks[0] != 1:
+                    ctx.violation("real:done-callback-count", f"{j.kind}: done callback invoked {j.callbacks[0]} times", replay)
+                if j.kind == "not-executable" and not isinstance(exc, PermissionError):
+                    ctx.violation("real:popen-error-lost", f"{j.kind}: result() gave {exc!r}", replay)
+                if j.pre_cancelled and not (isinstance(exc, P.ShutdownError) and f.process is None):
+                    ctx.violation("real:cancelled-before-start-not-ShutdownError",
+                                  f"{j.kind}: cancel() before submit: result() gave {exc!r}, process started: {f.process is not None}",
+                                  replay)
                 if mode == "wait" and raised is None:
                     if j.timeout and j.kind != "echo" and not isinstance(exc, subprocess.TimeoutExpired):
                         ctx.violation("real:timeout-not-TimeoutExpired",
@@ -1546,11 +1675,12 @@ def _real_process_runs(ctx, n_runs, P, rng, escaped, forced=None):
             for j, pids in late.items():
                 ctx.violation("real:alive-after-result", f"{j.kind}: processes {pids} alive, not killed, after the result "
                                                          "was delivered", replay)
-            try:
-                ex.submit(P.PopenFuture(["true"]))
-                ctx.violation("real:submit-after-shutdown-accepted", "submit after shutdown returned was accepted", replay)
-            except P.ShutdownError:
-                pass
+            if mode != "none" and not hung:
+                try:
+                    ex.submit(P.PopenFuture(["true"]))
+                    ctx.violation("real:submit-after-shutdown-accepted", "submit after shutdown returned was accepted", replay)
+                except P.ShutdownError:
+                    pass
         finally:
             for j in jobs:
                 j.cleanup()
@@ -1804,7 +1934,7 @@ def correspond(ctx):
 
     ctx.note(f"t+{time.time() - ctx.t0:.0f}s: model comparison done")
     # --- 5. real subprocesses ------------------------------------------------------------------------------------------
-    real_process_runs(ctx, ctx.scale(12, 150), literals)
+    real_process_runs(ctx, ctx.scale(14, 150), literals)
 
     if mismatch:
         mismatches.append(mismatch)
